@@ -151,6 +151,7 @@ pub fn dispatch(op: &[Value]) -> Result<Value, String> {
         "v_braille_cleanup" => Ok(Value::String(libmathcat::verif::braille::cleanup(&s(op, 1), &s(op, 2)))),
         "v_take_merge_log" => Ok(json!(libmathcat::verif::canonicalize::take_merge_log())),
         "v_number_patterns" => Ok(json!(libmathcat::verif::canonicalize::number_patterns(&s(op, 1), &s(op, 2), &s(op, 3)))),
+        "v_intent_lex" => libmathcat::verif::infer_intent::lex(&s(op, 1)).map(|v| json!(v.into_iter().map(|(k, t)| json!([k, t])).collect::<Vec<_>>())).map_err(e2s),
         "v_highlight_cell" => {
             let (h, hi, un) = libmathcat::verif::braille::highlight_cell(char::from_u32(n(op, 1) as u32).unwrap_or(' '));
             Ok(json!([h, hi as u32, un as u32]))
